@@ -72,7 +72,8 @@ fn gen(rng: &mut Rng, _idx: u64, tier: Tier) -> Case {
             }
             _ => { let k = *rng.pick(gen::COMMON_KINDS); let f = gen::frame(rng, &mut acs[a], k, false); let deco = rng.chance(0.2); (gen::line_of(rng, &f, deco), format!("{:?}", k).to_lowercase()) }
         };
-        lines.push((dt, b, tag));
+        lines.push((dt, b.clone(), tag.clone()));
+        if rng.chance(0.1) { lines.push((0, b, format!("{}:duplicate", tag.split(':').next().unwrap_or("")))); }
     }
     let ch = *rng.pick(&[Chunking::Line, Chunking::Line, Chunking::Line, Chunking::Pieces, Chunking::Multi]);
     let mut script = Script::file(args, vec![]);
